@@ -1,9 +1,9 @@
 package props
 
 import (
-	"sort"
 	"fmt"
 	"regexp"
+	"sort"
 	"strings"
 
 	"verif/harness/core"
@@ -161,10 +161,14 @@ type c02family struct {
 
 var c02families = []c02family{
 	{"int32", func(g *c02gen) *texpr { return &texpr{name: "int32", rng: sp("0..1000")} },
-		func(g *c02gen, lv int, t *texpr) { t.rng = sp([]string{"10..500", "20..400", "30..300", "40..200"}[lv%4]) }, []string{"50", "100"}, true},
+		func(g *c02gen, lv int, t *texpr) {
+			t.rng = sp([]string{"10..500", "20..400", "30..300", "40..200"}[lv%4])
+		}, []string{"50", "100"}, true},
 	{"uint8", func(g *c02gen) *texpr { return &texpr{name: "uint8"} },
 		func(g *c02gen, lv int, t *texpr) { t.rng = sp([]string{"1..200", "2..150 | 160..170", "5..100"}[lv%3]) }, []string{"50", "7"}, true},
-	{"int64", func(g *c02gen) *texpr { return &texpr{name: "int64", rng: sp("-9223372036854775808..9223372036854775807")} },
+	{"int64", func(g *c02gen) *texpr {
+		return &texpr{name: "int64", rng: sp("-9223372036854775808..9223372036854775807")}
+	},
 		func(g *c02gen, lv int, t *texpr) { t.rng = sp([]string{"-100..100", "-50..50"}[lv%2]) }, []string{"0", "-7"}, true},
 	{"string", func(g *c02gen) *texpr { return &texpr{name: "string", len: sp("0..64"), patterns: []string{"[a-z]*"}} },
 		func(g *c02gen, lv int, t *texpr) {
@@ -281,6 +285,8 @@ type c02leaf struct {
 	list        bool
 	scopes      [][]*ttypedef // innermost first
 	fam         string
+	// mandatory true / min-elements 1: the default of the type is not the leaf's (RFC 7950 7.6.1, 7.7.2)
+	required bool
 }
 
 func (l *c02leaf) yang(indent string) string {
@@ -294,6 +300,11 @@ func (l *c02leaf) yang(indent string) string {
 	}
 	if l.units != nil {
 		s += fmt.Sprintf(" units %q;", *l.units)
+	}
+	if l.required && l.list {
+		s += " min-elements 1;"
+	} else if l.required {
+		s += " mandatory true;"
 	}
 	return s + " }\n"
 }
@@ -641,7 +652,7 @@ func c02probes(c *core.Ctx) {
 }
 
 func C02(c *core.Ctx) {
-	c.Rule = "generated module sets (main module + submodule + imported module): typedef chains of depth 1–4 over int32/uint8/int64 (ranges), string (length, pattern), enumeration and bits (explicit, missing, zero and negative values; derived subsets), decimal64 (fraction-digits, range), boolean, identityref, leafref, unions of those, each level optionally stating default and units; typedefs at module level, in the submodule, in the imported module (prefixed) and local to a container (also shadowing a module-level name); leaves and leaf-lists of every level, with and without restrictions, default and units of their own, at module level, in containers with local typedefs, and in a grouping used 1–3 times; for every leaf of the compiled tree the effective type read through the accessors (format, ranges, lengths, patterns, enum values, bit positions, union members, leafref path and target format, identityref bases, fraction-digits, default, units) compared with the Lean derivation; bits and enumerations written directly on leaf-lists; unions placed in a module-level typedef (member typedefs with default/units). non-trivial = leaf whose type is a typedef chain of depth ≥2 or a union; distinct by (module set, leaf)"
+	c.Rule = "generated module sets (main module + submodule + imported module): typedef chains of depth 1–4 over int32/uint8/int64 (ranges), string (length, pattern), enumeration and bits (explicit, missing, zero and negative values; derived subsets), decimal64 (fraction-digits, range), boolean, identityref, leafref, unions of those, each level optionally stating default and units; typedefs at module level, in the submodule, in the imported module (prefixed) and local to a container (also shadowing a module-level name); leaves and leaf-lists of every level, with and without restrictions, default and units of their own, mandatory / min-elements 1 on a fifth of those without a default (the default of the type is then not the leaf's), at module level, in containers with local typedefs, and in a grouping used 1–3 times; for every leaf of the compiled tree the effective type read through the accessors (format, ranges, lengths, patterns, enum values, bit positions, union members, leafref path and target format, identityref bases, fraction-digits, default, units) compared with the Lean derivation; bits and enumerations written directly on leaf-lists; unions placed in a module-level typedef (member typedefs with default/units). non-trivial = leaf whose type is a typedef chain of depth ≥2 or a union; distinct by (module set, leaf)"
 	c.Assumptions = append(c.Assumptions,
 		"ranges are compared as written, level by level (their meaning for values is C05); identityref acceptance of derived identities is exercised by C05/C15",
 		"defaults are chosen inside every restriction of their chain so that every generated module set is valid")
@@ -755,6 +766,9 @@ func C02(c *core.Ctx) {
 			}
 			if r.Chance(25) {
 				l.units = sp("own-" + l.name)
+			}
+			if l.dflt == nil && r.Chance(20) {
+				l.required = true
 			}
 			l.path = path + "/" + l.name
 			return l
@@ -985,6 +999,9 @@ func C02(c *core.Ctx) {
 				}
 			}
 			line = append(append(line, l.t.toks()...), osTok(l.dflt), osTok(l.units))
+			if l.required {
+				line = append(line, "R")
+			}
 			lines = append(lines, strings.Join(line, " "))
 			deep := l.fam == "union"
 			for _, sc := range l.scopes {
